@@ -235,6 +235,40 @@ func checkCompositeKinds(c *Ctx, pk *packages.Package) {
 	})
 	c.Check(implPos.IsValid() && unwrapPos.IsValid() && implPos < unwrapPos, rule, "codescan.schemaBuilder.buildFromType › TextMarshaler test precedes pointer unwrapping", c.posOf(pk, fd.Pos()), "types.Implements(tpe, TextMarshaler) first",
 		"a pointer is unwrapped before the encoding.TextMarshaler test: a field *T whose MarshalText has a pointer receiver is described as T's object while encoding/json writes a string")
+	// maps: the key is a string by kind — defined string types (`type Locale string`) included
+	okMapKey := false
+	ast.Inspect(fd.Body, func(n ast.Node) bool {
+		cc, ok := n.(*ast.CaseClause)
+		if !ok || len(cc.List) != 1 || goan.ExprString(cc.List[0]) != "*types.Map" {
+			return true
+		}
+		txt := nodeText(pk, cc)
+		if strings.Contains(txt, "Underlying()") && (strings.Contains(txt, `"string"`) || strings.Contains(txt, "types.String")) && strings.Contains(txt, "AdditionalProperties()") {
+			okMapKey = true
+		}
+		return true
+	})
+	c.Check(okMapKey, rule, "codescan.schemaBuilder.buildFromType › map keys are strings by underlying type", c.posOf(pk, fd.Pos()), "key.Underlying() tested",
+		"the map arm does not test the key's underlying type: a map keyed by a defined string type (map[Locale]T) is encoded as a JSON object but scanned without additionalProperties")
+	// maps keyed by integers are JSON objects too (encoding/json writes decimal-string keys)
+	okIntKey := false
+	ast.Inspect(fd.Body, func(n ast.Node) bool {
+		cc, ok := n.(*ast.CaseClause)
+		if !ok || len(cc.List) != 1 || goan.ExprString(cc.List[0]) != "*types.Map" {
+			return true
+		}
+		ast.Inspect(cc, func(m ast.Node) bool {
+			if se, ok := m.(*ast.SelectorExpr); ok && se.Sel.Name == "IsInteger" {
+				if o, ok := info.Uses[se.Sel].(*types.Const); ok && o.Pkg() != nil && o.Pkg().Path() == "go/types" {
+					okIntKey = true
+				}
+			}
+			return true
+		})
+		return true
+	})
+	c.Check(okIntKey, rule, "codescan.schemaBuilder.buildFromType › integer map keys", c.posOf(pk, fd.Pos()), "the map arm tests the key's basic info for types.IsInteger",
+		"the map arm does not recognise integer keys: map[int]T is encoded by encoding/json as an object with decimal keys but scanned without a type")
 	// time.Time and RawMessage by path
 	src := nodeText(pk, fd)
 	c.Check(strings.Contains(src, `PkgPath == "time"`) && strings.Contains(src, `"date-time"`), rule, "codescan.schemaBuilder.buildFromType › time.Time", c.posOf(pk, fd.Pos()), "string/date-time, package tested by path", "time.Time is not recognised by package path and mapped to string/date-time")
@@ -368,10 +402,85 @@ func checkJSONTags(c *Ctx, rule string, pk *packages.Package) {
 			"the embedded-field loop skips embedded fields whose type name is unexported: encoding/json still promotes their exported fields, so the JSON has keys the definition does not declare")
 		c.Check(plainFiltered, rule, "codescan.schemaBuilder.buildFromStruct › unexported fields skipped", c.posOf(pk, fd.Pos()), "`if !fld.Exported() { continue }` in the ordinary-field loop", "unexported fields are no longer skipped")
 	}
+	// buildFromStruct: parseJSONTag names a field after the first identifier of its declaration; the
+	// property loop must take the default name from the types.Var it is describing (`X, Y float64`)
+	if fd := load.FuncDecl(pk, "schemaBuilder.buildFromStruct"); fd != nil {
+		var nameObj types.Object
+		ast.Inspect(fd.Body, func(n ast.Node) bool {
+			as, ok := n.(*ast.AssignStmt)
+			if !ok || len(as.Rhs) != 1 || len(as.Lhs) < 2 {
+				return true
+			}
+			if call, ok := as.Rhs[0].(*ast.CallExpr); ok {
+				if fn := goan.Callee(info, call); fn != nil && fn.Name() == "parseJSONTag" {
+					if id, ok := as.Lhs[0].(*ast.Ident); ok && id.Name != "_" {
+						nameObj = info.ObjectOf(id)
+					}
+				}
+			}
+			return true
+		})
+		okOwn := false
+		if nameObj != nil {
+			ast.Inspect(fd.Body, func(n ast.Node) bool {
+				as, ok := n.(*ast.AssignStmt)
+				if !ok || len(as.Lhs) != 1 || len(as.Rhs) != 1 {
+					return true
+				}
+				id, ok := as.Lhs[0].(*ast.Ident)
+				if !ok || info.ObjectOf(id) != nameObj {
+					return true
+				}
+				if call, ok := ast.Unparen(as.Rhs[0]).(*ast.CallExpr); ok && len(call.Args) == 0 {
+					if se, ok := call.Fun.(*ast.SelectorExpr); ok && se.Sel.Name == "Name" && goan.NamedPath(info.TypeOf(se.X)) == "go/types.Var" {
+						okOwn = true
+					}
+				}
+				return true
+			})
+		}
+		c.Check(nameObj != nil && okOwn, rule, "codescan.schemaBuilder.buildFromStruct › each field of a multi-name declaration keeps its own name", c.posOf(pk, fd.Pos()), "the default property name is taken from the types.Var being described",
+			"the property name comes only from parseJSONTag (first identifier of the declaration): for `X, Y float64` both fields are published as X and Y is missing although encoding/json writes it")
+	}
+	// parseJSONTag: the tag is looked at for every field, named or embedded (no return before
+	// the tag is read), and the tag literal — raw or interpreted — is decoded with strconv.Unquote
+	if fd := load.FuncDecl(pk, "parseJSONTag"); fd == nil {
+		c.Anchor(rule, "codescan.parseJSONTag", "not found")
+	} else {
+		var firstTag token.Pos
+		ast.Inspect(fd.Body, func(n ast.Node) bool {
+			if se, ok := n.(*ast.SelectorExpr); ok && se.Sel.Name == "Tag" && (!firstTag.IsValid() || se.Pos() < firstTag) {
+				firstTag = se.Pos()
+			}
+			return true
+		})
+		early := ""
+		ast.Inspect(fd.Body, func(n ast.Node) bool {
+			if rs, ok := n.(*ast.ReturnStmt); ok && firstTag.IsValid() && rs.Pos() < firstTag {
+				early = c.posOf(pk, rs.Pos())
+			}
+			return true
+		})
+		c.Check(firstTag.IsValid() && early == "", rule, "codescan.parseJSONTag › the tag is read for every field", c.posOf(pk, fd.Pos()), "no return precedes the first look at field.Tag",
+			"parseJSONTag returns at "+early+" before looking at the tag: fields of that shape (e.g. embedded ones) ignore `json:\"-\"` and renames, so the scanned schema has properties encoding/json never writes")
+		nTagValue, nUnquoted := 0, 0
+		ast.Inspect(fd.Body, func(n ast.Node) bool {
+			if call, ok := n.(*ast.CallExpr); ok {
+				if fn := goan.Callee(info, call); fn != nil && goan.CalleeName(fn) == "strconv.Unquote" && len(call.Args) == 1 && strings.HasSuffix(goan.ExprString(call.Args[0]), ".Tag.Value") {
+					nUnquoted++
+				}
+			}
+			if se, ok := n.(*ast.SelectorExpr); ok && se.Sel.Name == "Value" && strings.HasSuffix(goan.ExprString(se), ".Tag.Value") {
+				nTagValue++
+			}
+			return true
+		})
+		// one read is the emptiness test, the other must be the decoding
+		c.Check(nUnquoted >= 1 && nTagValue <= nUnquoted+1, rule, "codescan.parseJSONTag › the tag literal is decoded with strconv.Unquote", c.posOf(pk, fd.Pos()), fmt.Sprintf("%d reads of Tag.Value, %d through strconv.Unquote", nTagValue, nUnquoted),
+			fmt.Sprintf("the struct tag literal is read %d times but decoded with strconv.Unquote %d times: tags written as interpreted string literals (\"json:\\\"name\\\"\") are not understood and the Go field names are published", nTagValue, nUnquoted))
+	}
 }
 
-// checkPackageIdentity: no comparison `x.Name == "<std package>"` on a package object and no map
-// key / cache key built from a package's short name.
 func checkPackageIdentity(c *Ctx, rule string, pk *packages.Package) {
 	c.Rule(rule, "packages are identified by import path (PkgPath / Path()), not by short name, in equality tests and in map / cache keys", 3)
 	info := pk.TypesInfo
